@@ -55,22 +55,22 @@ def _log(**kw):
         f.write(json.dumps(kw) + "\n")
 
 
-def init_wrapper(config):
+def init_wrapper(config, *args, **kwargs):
     if os.getpid() != _MAIN_PID and _SEQ[0] and not os.path.exists(os.path.join(_EVDIR[0] or "", f"{os.getpid()}.ndjson")):
         _SEQ[0] = 0  # a freshly forked worker inherits the parent's counter
     try:
-        return _ORIG_INIT(config)
+        return _ORIG_INIT(config, *args, **kwargs)
     finally:
         _log(ev="init", g=_fp(getattr(md, "_GLOBAL_WORKER_CONFIG", None)))
 
 
-def helper_wrapper(index):
+def helper_wrapper(index, *args, **kwargs):
     g = _fp(getattr(md, "_GLOBAL_WORKER_CONFIG", None))
     if _SLEEP[0]:
         time.sleep(((int(index) * 2654435761 + _SLEEP[0]) % 4) / 1000.0)
     m = None
     try:
-        m = _ORIG_HELPER(index)
+        m = _ORIG_HELPER(index, *args, **kwargs)
         return m
     finally:
         _log(ev="task", idx=int(index) + 1, g=g, ok=m is not None)
